@@ -267,9 +267,9 @@ func c05concScenarios() []c05conc {
 	// duo suffrage, threshold 100: n0 (local) has voted everywhere in the setup, one vote of n1 completes a stage point
 	setup := []c05ev{v("n0", p1, "A", false, ""), v("n0", p1, "A", true, ""), v("n0", p2, "A", false, ""), v("n0", p3, "A", false, ""), v("n0", p4, "A", false, "")}
 	return []c05conc{
-		{name: "three-completions", n: 2, th: 100, setup: setup, bound: [2]int{1, 2}, threads: [][]c05ev{
+		{name: "three-completions", n: 2, th: 100, setup: setup, bound: [2]int{1, 1}, threads: [][]c05ev{
 			{v("n1", p1, "A", false, "")}, {v("n1", p2, "A", false, "")}, {v("n1", p3, "A", false, "")}}},
-		{name: "stalled-voter-vs-two-cleanups", n: 2, th: 100, setup: setup, bound: [2]int{-1, 2}, threads: [][]c05ev{
+		{name: "stalled-voter-vs-two-cleanups", n: 2, th: 100, setup: setup, bound: [2]int{-1, 1}, threads: [][]c05ev{
 			{v("n1", p1, "B", false, "")}, {v("n1", p2, "A", false, ""), v("n1", p3, "A", false, ""), v("n1", p5, "A", false, "")}}},
 		// votes parked while the suffrage was unknown: one Count() completes 33.0A and 34.0I (two cleanup cycles in a row) while a
 		// voter of 33.0I is in flight and a new stage point asks for a record
@@ -279,11 +279,11 @@ func c05concScenarios() []c05conc {
 		{name: "stalled-voter-vs-two-cleanups-3t", n: 2, th: 100, bound: [2]int{-1, 1},
 			setup: []c05ev{v("n0", p1, "A", false, ""), v("n0", p2, "A", false, ""), v("n0", p3, "A", false, "")},
 			threads: [][]c05ev{{v("n1", p1, "B", false, "")}, {v("n1", p2, "A", false, ""), v("n1", p3, "A", false, "")}, {v("n0", p5, "A", false, "")}}},
-		{name: "count-vs-completion-vs-missing", n: 2, th: 100, setup: setup, bound: [2]int{1, 2}, threads: [][]c05ev{
+		{name: "count-vs-completion-vs-missing", n: 2, th: 100, setup: setup, bound: [2]int{1, 1}, threads: [][]c05ev{
 			{{kind: "count"}}, {v("n1", p2, "A", false, ""), v("n1", p3, "A", false, "")}, {{kind: "missing", p: p1}}}},
 		{name: "ballot-voters-and-setlast", n: 2, th: 100, setup: setup[:3], bound: [2]int{-1, 1}, threads: [][]c05ev{
 			{v("n1", p1, "A", false, "acc:32")}, {v("n1", p2, "A", false, "init:33.0")}, {{kind: "setlast", p: p3, maj: true}, v("n1", p4, "A", false, "")}}},
-		{name: "completions-then-new-point", n: 2, th: 100, setup: setup, bound: [2]int{1, 2}, threads: [][]c05ev{
+		{name: "completions-then-new-point", n: 2, th: 100, setup: setup, bound: [2]int{1, 1}, threads: [][]c05ev{
 			{v("n1", p2, "A", false, ""), v("n1", p3, "A", false, "")}, {v("n1", p4, "A", false, ""), v("n1", p5, "A", false, "")}}},
 		{name: "voted-vs-two-cleanups", n: 2, th: 100, setup: setup, bound: [2]int{1, 2}, threads: [][]c05ev{
 			{{kind: "voted", p: p1}}, {v("n1", p2, "A", false, ""), v("n1", p3, "A", false, "")}}},
